@@ -533,6 +533,21 @@ fn judge(
     let out = complete(&b.parser, argv, 0, None, fuel_for(&b.spec, argv));
     case.rep.exec(b.h, argv, 14, true);
     case.rep.count(&format!("outcome:{}", out.class()));
+    // a shell asks with the marker on the command line: the answer is the same
+    if di % 4 == 1 && !argv.iter().any(|a| a.starts_with(b"--bpaf-complete")) {
+        let via = super::comp::complete_via_marker(&b.parser, argv, 0, None, fuel_for(&b.spec, argv));
+        case.rep.count("requests-through-the-marker");
+        if via != out && !matches!(via, Outcome::Panic(_) | Outcome::FuelExhausted) {
+            case.rep.violation(
+                &format!("marker-request-differs:{}", via.class()),
+                "always-completion",
+                case.index,
+                case_json(&b.spec, argv)
+                    .set("with_set_comp", out.show())
+                    .set("with_marker_item", via.show()),
+            );
+        }
+    }
     case.rep.count(if item_start {
         "typed:item-start"
     } else {
